@@ -1,18 +1,319 @@
 package main
 
+// Part C — shared synthesised denials (RFC 8020 subtree cuts, RFC 8198
+// denial proofs) are neither consumed nor created by request trees that
+// carried ECS or CD: directly, through alias chases, through the background
+// refresh of an exact entry, and through Store.GetWithContext (the
+// resolver's internal sub-query read path).
+//
+// The cache is configured with DNSSEC "on" (shared denial enabled); the stub
+// plays the validating resolver and marks its NXDOMAIN answers with
+// locally-validated provenance. Observation: stub invocations per question
+// and Store.NXDomainCutLen / DenialProofLen deltas.
+
 import (
+	"context"
+	"fmt"
+	"math/rand/v2"
+	"strings"
 	"time"
 
+	"github.com/miekg/dns"
+
+	"github.com/semihalev/sdns/middleware"
 	"github.com/semihalev/sdns/zzverif/vlib"
 )
 
 func secs(n int) time.Duration { return time.Duration(n) * time.Second }
 
 type denialSnap struct{ cuts, proofs int }
-type denialState struct{ e *env }
 
-func newDenialState(e *env) *denialState                                   { return &denialState{e: e} }
-func (d *denialState) snap() denialSnap                                    { return denialSnap{} }
-func (d *denialState) storeGet(idx int, op *Op)                            {}
-func (d *denialState) judge(idx int, op *Op, out *outcome, pre denialSnap) {}
-func runPartC(r *vlib.Run)                                                 {}
+type denialState struct {
+	e     *env
+	asked map[string]bool
+}
+
+func newDenialState(e *env) *denialState { return &denialState{e: e, asked: map[string]bool{}} }
+
+func (d *denialState) snap() denialSnap {
+	st := d.e.st.Cache().VerifStore()
+	return denialSnap{cuts: st.NXDomainCutLen(), proofs: st.DenialProofLen()}
+}
+
+func carriesECS(q QSpec) bool { return q.EDNS && q.hasOpt(dns.EDNS0SUBNET) }
+
+func treeKind(q QSpec) string {
+	switch {
+	case carriesECS(q) && q.CD:
+		return "ecs+cd"
+	case carriesECS(q):
+		return "ecs"
+	case q.CD:
+		return "cd"
+	}
+	return "plain"
+}
+
+func (d *denialState) judge(idx int, op *Op, out *outcome, pre denialSnap) {
+	e, r := d.e, d.e.r
+	if !out.Sent {
+		return
+	}
+	post := d.snap()
+	kind := treeKind(op.Q)
+	name := strings.ToLower(op.Q.Name)
+	key := fmt.Sprintf("%s/%d/%v", name, op.Q.Qtype, op.Q.CD)
+	fresh := !d.asked[key]
+	d.asked[key] = true
+	target, isAlias := e.cname[name]
+	target = strings.ToLower(target)
+
+	reached := func(n string, internal bool) bool {
+		for _, s := range out.Seen {
+			if s.Name == n && s.Internal == internal {
+				return true
+			}
+		}
+		return false
+	}
+	created := post.cuts > pre.cuts || post.proofs > pre.proofs
+	refreshed := reached(name, true) && !isAlias
+	ex := map[string]any{"tree": kind, "cuts_before": pre.cuts, "cuts_after": post.cuts, "proofs_before": pre.proofs, "proofs_after": post.proofs}
+	r.Eval(1)
+
+	// ---- creation
+	if kind != "plain" {
+		how := "query"
+		switch {
+		case isAlias:
+			how = "alias-chase"
+		case refreshed:
+			how = "background-refresh"
+		}
+		anyNX := false
+		for _, s := range out.Seen {
+			anyNX = anyNX || s.NX
+		}
+		if anyNX {
+			r.Count("denial_ecs_cd_creation_probes", 1)
+			r.Count("denial_creation_probes_"+how, 1)
+			r.Distinct("deny-create/" + kind + "/" + how + "/" + op.Entry)
+		}
+		if created {
+			r.Violation("denial/created-by-"+kind+"-tree/"+how,
+				fmt.Sprintf("a %s request tree (%s, client %s, %s/%s) created shared synthesised denial state: subtree cuts %d→%d, denial proofs %d→%d",
+					kind, op.Q.Name, op.Client, op.Entry, op.Proto, pre.cuts, post.cuts, pre.proofs, post.proofs), caseOf(e, idx, op, ex))
+		}
+	} else if created {
+		r.Count("denial_plain_created_shared", 1)
+	}
+
+	// ---- consumption
+	if !out.Res.Wrote || out.Res.Msg == nil {
+		return
+	}
+	rcode := out.Res.Msg.Rcode
+	if isAlias {
+		ru := parseRule(target)
+		if !ru.nx || !fresh {
+			return
+		}
+		hit := !reached(target, true) && !reached(target, false)
+		if kind == "plain" {
+			if hit && rcode == dns.RcodeNameError {
+				r.Count("denial_alias_plain_consumed", 1)
+			}
+			return
+		}
+		r.Count("denial_alias_probes", 1)
+		if hit && rcode == dns.RcodeNameError {
+			r.Violation("denial/consumed-by-"+kind+"-tree/alias-chase",
+				fmt.Sprintf("the alias chase of a %s query (%s → %s) was answered NXDOMAIN without any upstream request for the target: shared denial state was consumed", kind, name, target),
+				caseOf(e, idx, op, ex))
+		}
+		return
+	}
+	if !parseRule(name).nx || !fresh {
+		return
+	}
+	hit := !reached(name, false)
+	if kind == "plain" {
+		if hit && rcode == dns.RcodeNameError {
+			r.Count("denial_plain_consumed_shared", 1)
+		}
+		return
+	}
+	if pre.cuts+pre.proofs > 0 {
+		r.Count("denial_ecs_cd_probes_bypassed", 1)
+		r.Distinct("deny-consume/" + kind + "/" + op.Entry + "/" + op.Proto)
+	}
+	if hit && rcode == dns.RcodeNameError {
+		r.Violation("denial/consumed-by-"+kind+"-tree/query",
+			fmt.Sprintf("a %s query for the never-asked name %s (client %s, %s/%s) was answered NXDOMAIN without any upstream request: shared denial state was consumed",
+				kind, name, op.Client, op.Entry, op.Proto), caseOf(e, idx, op, ex))
+	}
+}
+
+// storeGet exercises Store.GetWithContext, the read path resolver-private
+// sub-queries (DS / DNSKEY / NS lookups) use; their fresh messages carry no
+// option, so only the context marker preserves the client's isolation.
+func (d *denialState) storeGet(idx int, op *Op) {
+	e, r := d.e, d.e.r
+	st := e.st.Cache().VerifStore()
+	req := new(dns.Msg)
+	req.SetQuestion(op.Q.Name, op.Q.Qtype)
+	req.RecursionDesired = true
+	req.CheckingDisabled = op.Q.CD
+	req.SetEdns0(1232, true)
+	if carriesECS(op.Q) {
+		opt := req.IsEdns0()
+		opt.Option = append(opt.Option, &dns.EDNS0_SUBNET{Code: dns.EDNS0SUBNET, Family: 1, SourceNetmask: 24, Address: []byte{198, 51, 100, 0}})
+	}
+	ctx := context.Background()
+	if op.MarkECS {
+		ctx = middleware.MarkClientECS(ctx)
+	}
+	var (
+		msg *dns.Msg
+		ok  bool
+	)
+	func() {
+		defer func() {
+			if p := recover(); p != nil {
+				r.Violation("panic/store-get", fmt.Sprintf("Store.GetWithContext panicked: %v", p), caseOf(e, idx, op, nil))
+			}
+		}()
+		msg, ok = st.GetWithContext(ctx, req)
+	}()
+	r.Eval(1)
+	isolated := op.MarkECS || op.Q.CD || carriesECS(op.Q)
+	synth := ok && msg != nil && msg.Rcode == dns.RcodeNameError
+	switch {
+	case !isolated && synth:
+		r.Count("denial_store_get_plain_hits", 1)
+	case isolated && synth:
+		why := "cd"
+		if op.MarkECS {
+			why = "client-ecs-mark"
+		} else if carriesECS(op.Q) {
+			why = "raw-ecs"
+		}
+		r.Violation("denial/store-get-consumed/"+why,
+			fmt.Sprintf("Store.GetWithContext answered %s NXDOMAIN from shared denial state for a request tree isolated by %s", op.Q.Name, why), caseOf(e, idx, op, nil))
+	case isolated:
+		r.Count("denial_store_get_marked_misses", 1)
+	}
+}
+
+func genScenarioC(r *vlib.Run, idx int) *Scenario {
+	rng := r.RandN("C", idx)
+	kind := []int{1, 1, 0, 1, 2}[idx%5]
+	p := genPolicy(rng, kind)
+	p.DNSSEC = true
+	p.Prefetch = []int{0, 50}[idx%2]
+	sc := &Scenario{Part: "C", Index: idx, Policy: p, CNAME: map[string]string{}}
+	m := newModel(p)
+	zone := func(k int) string { return fmt.Sprintf("z%dx%d.c19.test.", idx, k) }
+	n := 0
+	label := func(pfx string) string { n++; return fmt.Sprintf("%s%d", pfx, n) }
+
+	mk := func(role string, name string) Op {
+		entry, proto := genEntry(rng)
+		q := QSpec{Name: name, Qtype: pick(rng, []uint16{dns.TypeA, dns.TypeA, dns.TypeAAAA, dns.TypeTXT}), ID: uint16(rng.UintN(65536)), RD: true, EDNS: true, UDPSize: 1232, DO: rng.IntN(2) == 0}
+		client := genClient(rng, p)
+		switch role {
+		case "plain":
+			if rng.IntN(4) == 0 {
+				q.EDNS = false
+			} else {
+				q.Opts = genOtherOpts(rng)
+			}
+		case "cd":
+			q.CD = true
+			q.Opts = genOtherOpts(rng)
+		case "ecs", "ecs+cd":
+			q.CD = role == "ecs+cd"
+			q.Opts = append(genOtherOpts(rng), optHex(dns.EDNS0SUBNET, wellFormedSubnet(rng, m)))
+		case "ecs-odd": // decodable but useless: family 0 / source 0 (what dig +subnet=0 sends)
+			q.Opts = []OptSpec{optHex(dns.EDNS0SUBNET, []byte{0, 0, 0, 0})}
+		case "ecs-junk": // only a hand-built struct can carry it
+			entry = "msgstruct"
+			q.Opts = []OptSpec{optHex(dns.EDNS0SUBNET, append([]byte{0, 7, 99, 0}, randBytes(rng, 5)...))}
+		}
+		return Op{Kind: "q", Client: client, Entry: entry, Proto: proto, Q: q, Role: role}
+	}
+	probes := []string{"ecs", "ecs", "cd", "ecs+cd", "ecs-odd", "ecs-junk", "ecs", "cd"}
+	add := func(op Op) { sc.Ops = append(sc.Ops, op) }
+
+	for k := 0; k < 3; k++ {
+		z := zone(k)
+		dead := label("dead") + "." + z
+		// creation probes first: nothing is shared yet for this zone
+		for i := 0; i < 3; i++ {
+			add(mk(pick(rng, probes), label("c")+"."+label("dead")+"."+z))
+		}
+		al := label("al") + "." + z
+		sc.CNAME[al] = label("t") + "." + label("dead") + "." + z
+		add(mk(pick(rng, []string{"ecs", "cd", "ecs+cd"}), al))
+		// a plain client admits the shared state …
+		add(mk("plain", label("p")+"."+dead))
+		// … and consumes it (subtree cut, then the zone-wide proof)
+		add(mk("plain", label("p")+"."+dead))
+		add(mk("plain", label("mx")+"."+z))
+		// probes under the cut and under the proof
+		for i := 0; i < 4; i++ {
+			add(mk(pick(rng, probes), label("e")+"."+dead))
+		}
+		for i := 0; i < 2; i++ {
+			add(mk(pick(rng, probes), label("mx")+"."+z))
+		}
+		// alias chases into the denied subtree
+		al2 := label("al") + "." + z
+		sc.CNAME[al2] = label("t") + "." + dead
+		add(mk(pick(rng, []string{"ecs", "cd", "ecs+cd", "ecs-odd"}), al2))
+		al3 := label("al") + "." + z
+		sc.CNAME[al3] = label("t") + "." + dead
+		add(mk("plain", al3))
+		// the resolver's internal read path
+		for _, g := range []struct {
+			mark, cd, raw bool
+		}{{false, false, false}, {true, false, false}, {false, true, false}, {false, false, true}} {
+			op := Op{Kind: "get", MarkECS: g.mark, Q: QSpec{Name: label("g") + "." + dead, Qtype: dns.TypeDS, CD: g.cd, EDNS: true}}
+			if g.raw {
+				op.Q.Opts = []OptSpec{optHex(dns.EDNS0SUBNET, []byte{0, 1, 24, 0, 198, 51, 100})}
+			}
+			add(op)
+		}
+	}
+	// background refresh of an exact negative entry triggered by an ECS hit
+	if p.Prefetch > 0 {
+		z := zone(9)
+		name := label("r") + "." + label("dead") + "." + z
+		first := mk("ecs", name)
+		first.Q.Qtype = dns.TypeA
+		add(first)
+		add(Op{Kind: "adv", AdvSec: 450})
+		again := mk("ecs", name)
+		again.Q.Qtype = dns.TypeA
+		add(again)
+	}
+	return sc
+}
+
+func wellFormedSubnet(rng *rand.Rand, m *model) []byte {
+	if rng.IntN(2) == 0 {
+		bits := rng.IntN(33)
+		return append([]byte{0, 1, byte(bits), 0}, randBytes(rng, 4)...)
+	}
+	bits := rng.IntN(129)
+	return append([]byte{0, 2, byte(bits), 0}, append([]byte{0x20, 0x01}, randBytes(rng, 14)...)...)
+}
+
+func runPartC(r *vlib.Run) {
+	nSc := r.N(30, 500)
+	for i := 0; i < nSc; i++ {
+		runScenario(r, genScenarioC(r, i))
+		r.Progress("part C scenario %d/%d", i+1, nSc)
+	}
+	r.Note("part_c", fmt.Sprintf("%d scenarios x 3 zones", nSc))
+}
